@@ -465,8 +465,11 @@ func checkC13(c *core.Ctx) {
 		if err != nil {
 			continue
 		}
+		// what the parser produced, projected ONCE: every formatting of this document (under whatever options,
+		// after whatever earlier formatting) must denote it
+		tree0 := schemaNorm(ProjectSchemaDoc(d0))
 		for _, o := range opts {
-			tree := schemaNorm(ProjectSchemaDoc(d0))
+			tree := copyGTs(tree0)
 			if o.NoDesc {
 				tree = dropDescs(tree)
 			}
@@ -519,6 +522,8 @@ func checkC13(c *core.Ctx) {
 		if err != nil {
 			continue
 		}
+		// the schema as loaded, projected before anything is formatted
+		loaded := map[bool]cSchema{true: projectCanonical(s, true), false: projectCanonical(s, false)}
 		for oi, o := range schemaFmtOpts {
 			if oi%3 != 0 && !c.Thorough() {
 				continue
@@ -529,7 +534,7 @@ func checkC13(c *core.Ctx) {
 				continue
 			}
 			rec := map[string]any{"kind": "schema", "tree": []GTc{}, "t1": cps(t1), "reparsed": false, "d1": []GTc{}, "t2": []int{}, "locs": locCps(), "argsep": o.NoDesc && describedInnerArgSchema(s),
-				"loaded": projectCanonical(s, !o.NoDesc), "reloaded": cSchema{Types: []cType{}, DirDefs: []cDirDef{}, Desc: []int{}, Dirs: []cDir{}}}
+				"loaded": loaded[!o.NoDesc], "reloaded": cSchema{Types: []cType{}, DirDefs: []cDirDef{}, Desc: []int{}, Dirs: []cDir{}}}
 			if s1, err := gqlparser.LoadSchema(&ast.Source{Name: "formatted.graphql", Input: t1}); err == nil {
 				rec["reparsed"] = true
 				rec["reloaded"] = projectCanonical(s1, !o.NoDesc)
@@ -574,6 +579,22 @@ func handTrickySchemas() []string {
 		for _, sp := range stringSpellings(v) {
 			out = append(out, sp+"\ntype Query {\n  "+sp+"\n  f(\n    "+sp+"\n    a: String = "+sp+"): E @deprecated(reason: "+sp+")\n}\nenum E {\n  "+sp+"\n  A\n}")
 		}
+	}
+	// several schema definitions / extensions in one document (the formatter writes them as one), formatted under
+	// several option sets in a row
+	out = append(out, "schema @a { query: Q } extend schema @b extend schema @c(x: 1) { mutation: M } extend schema { subscription: S } type Q { a: Int } type M { a: Int } type S { a: Int }",
+		"extend schema @b\nextend schema @c(x: 1) @c(x: 2) { mutation: M }\n\"d\" schema { query: Q }",
+		"\"one\" schema { query: Q } \"two\" schema @x { mutation: M }")
+	return out
+}
+
+func copyGTs(a []GT) []GT {
+	if a == nil {
+		return nil
+	}
+	out := make([]GT, len(a))
+	for i, n := range a {
+		out[i] = GT{T: n.T, V: n.V, K: copyGTs(n.K)}
 	}
 	return out
 }
